@@ -19,14 +19,18 @@ NonEmptySubsets(nv) == SubsetSeqs(0..(nv - 1)) \ {<<>>}
 SegInfos == {<<[id |-> 0, subs |-> <<1, 2>>], [id |-> 3, subs |-> <<>>]>>, <<[id |-> 2, subs |-> <<0>>], [id |-> 1, subs |-> <<>>]>>,
              <<[id |-> 0, subs |-> <<>>]>>, <<[id |-> 1, subs |-> <<>>], [id |-> 0, subs |-> <<>>], [id |-> 2, subs |-> <<3>>]>>}
 Labels(info) == {-1} \cup ToSet(FlatIds(info))
+\* C13: the setter alphabet; each op comes in three value variants
+SetOps == {[op |-> o, v |-> v] : o \in {"verts", "vertsN", "uvs", "normals", "tangents", "bitangents", "colors", "eye", "tris", "reload"}, v \in 0..2}
 Cases ==
     CASE Family = "delverts" -> UNION {{[k |-> "delverts", nv |-> m.nv, tris |-> m.tris, I |-> I] : I \in NonEmptySubsets(m.nv)} : m \in Meshes}
       [] Family = "segments" -> UNION {{[k |-> "segments", nt |-> nt, info |-> info, L |-> L] : L \in [1..nt -> Labels(info)]} : nt \in 0..MaxT, info \in SegInfos}
+      [] Family = "setget" -> {[k |-> "setget", h |-> h] : h \in UNION {[1..n -> SetOps] : n \in 1..MaxT}}
       [] Family = "partassign" -> UNION {{[k |-> "partassign", nt |-> nt, np |-> np, L |-> L] : L \in [1..nt -> 0..(np - 1)]} : nt \in 1..MaxT, np \in 1..3}
 Expected(x) ==
     CASE x.k = "delverts" -> [labels |-> Erase(Iota(x.nv), x.I), tris |-> MapTris(x.tris, CollapseMap(x.I, x.nv))]
       [] x.k = "segments" -> [newLabels |-> [i \in 1..x.nt |-> NewLabel(x.info, x.L[i])]]
       [] x.k = "partassign" -> [n |-> x.nt]
+      [] x.k = "setget" -> [n |-> Len(x.h)]
 Hash(x) == (x.nv * 7 + Len(x.tris) * 13 + Len(x.I) * 3 + (IF Len(x.I) > 0 THEN x.I[1] ELSE 0) + FoldLeft(LAMBDA a, t : a + t[1] + 2 * t[2] + 3 * t[3], 0, x.tris))
 Picked(x) == Sample = 1 \/ (IF x.k = "delverts" THEN Hash(x) % Sample = Phase % Sample ELSE TRUE)
 Init == c \in Cases
